@@ -228,19 +228,19 @@ Proof. unfold wire_data. rewrite !zlen_cons. lia. Qed.
 
 (* one frame at the head of a byte string: the parser consumes exactly it *)
 Lemma parse_one_frame_gen : forall p b,
-  c_len p = zlen (c_data p) -> c_len p + 2 <= 65535 ->
+  zlen (c_data p) + 2 <= 65535 ->
   parse_one (frame p ++ b) = (set_wire (wire_data p), b).
 Proof.
-  intros p b Hn Hmax. unfold parse_one, frame. rewrite <- app_assoc.
-  destruct (le_bytes2_prefix (c_len p + 2) (wire_data p ++ b)) as [-> ->].
+  intros p b Hmax. unfold parse_one, frame. rewrite <- app_assoc.
+  destruct (le_bytes2_prefix (zlen (c_data p) + 2) (wire_data p ++ b)) as [-> ->].
   pose proof (zlen_nonneg (c_data p)) as Hnn.
   rewrite le_val_le_bytes_id by (change (256 ^ Z.of_nat 2) with 65536; lia).
-  rewrite !zlen_app. replace (zlen (le_bytes 2 (c_len p + 2))) with 2 by (unfold zlen; rewrite le_bytes_length; reflexivity).
+  rewrite !zlen_app. replace (zlen (le_bytes 2 (zlen (c_data p) + 2))) with 2 by (unfold zlen; rewrite le_bytes_length; reflexivity).
   pose proof (zlen_nonneg (wire_data p ++ b)) as H1. rewrite zlen_app in H1. pose proof (zlen_nonneg b) as Hb.
   pose proof (zlen_wire_data p) as Hw.
   destruct (2 + (zlen (wire_data p) + zlen b) <? 2) eqn:E1; [lia|].
-  destruct (zlen (wire_data p) + zlen b <? c_len p + 2) eqn:E2; [lia|].
-  replace (Z.to_nat (c_len p + 2)) with (length (wire_data p)) by (unfold zlen in *; lia).
+  destruct (zlen (wire_data p) + zlen b <? zlen (c_data p) + 2) eqn:E2; [lia|].
+  replace (Z.to_nat (zlen (c_data p) + 2)) with (length (wire_data p)) by (unfold zlen in *; lia).
   rewrite firstn_app_exact, skipn_app_exact. reflexivity.
 Qed.
 
@@ -283,13 +283,13 @@ Qed.
 Lemma write_packet_wf : forall p, wf_cpx p -> write_packet p = Ok (frame p).
 Proof.
   intros p (_ & _ & _ & _ & Hn & Hmax). unfold write_packet. pose proof (zlen_nonneg (c_data p)).
-  destruct ((0 <=? c_len p + 2) && (c_len p + 2 <=? 65535)) eqn:E; [reflexivity|lia].
+  destruct (zlen (c_data p) + 2 <=? 65535) eqn:E; [reflexivity|lia].
 Qed.
 
-Lemma write_packet_too_long : forall p, 65533 < c_len p -> write_packet p = Exc StructError.
+Lemma write_packet_too_long : forall p, 65533 < zlen (c_data p) -> write_packet p = Exc StructError.
 Proof.
   intros p H. unfold write_packet.
-  destruct ((0 <=? c_len p + 2) && (c_len p + 2 <=? 65535)) eqn:E; [lia|reflexivity].
+  destruct (zlen (c_data p) + 2 <=? 65535) eqn:E; [lia|reflexivity].
 Qed.
 
 (* one well-formed frame at the head of ANY stream, under any fragmentation *)
@@ -302,11 +302,11 @@ Qed.
 
 (* a frame of an unsupported version is rejected and the stream stays aligned *)
 Lemma read_packet_bad_version : forall p b s,
-  Z.land (c_ver p) 3 <> 0 -> c_len p = zlen (c_data p) -> c_len p <= 65533 ->
+  Z.land (c_ver p) 3 <> 0 -> zlen (c_data p) <= 65533 ->
   concat s = frame p ++ b ->
   exists s', read_packet s = (Exc RuntimeErr, s') /\ concat s' = b.
 Proof.
-  intros p b s Hv Hn Hmax Hc. destruct (read_packet_spec s) as (s' & H1 & H2).
+  intros p b s Hv Hmax Hc. destruct (read_packet_spec s) as (s' & H1 & H2).
   rewrite Hc, parse_one_frame_gen in H1, H2 by lia. rewrite version_rejected_packet in H1 by assumption.
   exists s'. auto.
 Qed.
@@ -595,7 +595,7 @@ Proof.
   { apply read_packet_any_spec; [assumption| |].
     - unfold frame. rewrite <- app_assoc, zlen_app. unfold zlen at 1. rewrite le_bytes_length.
       pose proof (zlen_nonneg (wire_data p ++ b)). lia.
-    - unfold frame. rewrite <- app_assoc. destruct (le_bytes2_prefix (c_len p + 2) (wire_data p ++ b)) as [-> ->].
+    - unfold frame. rewrite <- app_assoc. destruct (le_bytes2_prefix (zlen (c_data p) + 2) (wire_data p ++ b)) as [-> ->].
       destruct Hwf as (_ & _ & _ & _ & Hn & Hmax). pose proof (zlen_nonneg (c_data p)).
       rewrite le_val_le_bytes_id by (change (256 ^ Z.of_nat 2) with 65536; lia).
       rewrite zlen_app, zlen_wire_data. pose proof (zlen_nonneg b). lia. }
@@ -626,19 +626,139 @@ Proof.
     set (rest := concat (map frame ps) ++ b).
     pose proof (parse_one_frame p rest Hp) as Hpo.
     destruct Hp as (_ & _ & _ & _ & Hn & Hmax). pose proof (zlen_nonneg (c_data p)) as Hnn.
-    assert (Hfr : frame p ++ rest = le_bytes 2 (c_len p + 2) ++ wire_data p ++ rest) by (unfold frame; now rewrite <- app_assoc).
+    assert (Hfr : frame p ++ rest = le_bytes 2 (zlen (c_data p) + 2) ++ wire_data p ++ rest) by (unfold frame; now rewrite <- app_assoc).
     assert (Hset : set_wire (wire_data p) = Ok p).
     { rewrite parse_one_frame_gen in Hpo by lia. now injection Hpo. }
     rewrite <- Hset.
-    apply rp_any with (h := le_bytes 2 (c_len p + 2)) (b1 := wire_data p ++ rest).
-    + rewrite Hfr. destruct (le_bytes2_prefix (c_len p + 2) (wire_data p ++ rest)) as [E1 E2].
-      pose proof (read_data_any_exists 2 [] (le_bytes 2 (c_len p + 2) ++ wire_data p ++ rest)) as H.
+    apply rp_any with (h := le_bytes 2 (zlen (c_data p) + 2)) (b1 := wire_data p ++ rest).
+    + rewrite Hfr. destruct (le_bytes2_prefix (zlen (c_data p) + 2) (wire_data p ++ rest)) as [E1 E2].
+      pose proof (read_data_any_exists 2 [] (le_bytes 2 (zlen (c_data p) + 2) ++ wire_data p ++ rest)) as H.
       change (Z.to_nat 2) with 2%nat in H. rewrite E1, E2 in H. cbn [app] in H. apply H.
       rewrite zlen_app. unfold zlen at 1. rewrite le_bytes_length. pose proof (zlen_nonneg (wire_data p ++ rest)). lia.
     + rewrite le_val_le_bytes_id by (change (256 ^ Z.of_nat 2) with 65536; lia).
-      pose proof (read_data_any_exists (c_len p + 2) [] (wire_data p ++ rest)) as H.
-      replace (Z.to_nat (c_len p + 2)) with (length (wire_data p)) in H
+      pose proof (read_data_any_exists (zlen (c_data p) + 2) [] (wire_data p ++ rest)) as H.
+      replace (Z.to_nat (zlen (c_data p) + 2)) with (length (wire_data p)) in H
         by (pose proof (zlen_wire_data p); unfold zlen in *; lia).
       rewrite firstn_app_exact, skipn_app_exact in H. cbn [app] in H. apply H.
       rewrite zlen_app, zlen_wire_data. pose proof (zlen_nonneg rest). lia.
 Qed.
+
+(* ================================================================ the sending side: short writes *)
+Lemma sendall_id : forall takes buf, sendall takes buf = buf.
+Proof.
+  induction takes as [|t ts IH]; intros buf; cbn [sendall]; [reflexivity|].
+  destruct (zlen buf <=? t); [reflexivity|]. rewrite IH. apply firstn_skipn.
+Qed.
+
+Lemma tx_packet_write : forall takes p, tx_packet takes p = write_packet p.
+Proof. intros takes p. unfold tx_packet. destruct (write_packet p); [now rewrite sendall_id|reflexivity]. Qed.
+
+Lemma tx_packet_wf : forall takes p, wf_cpx p -> tx_packet takes p = Ok (frame p).
+Proof. intros. rewrite tx_packet_write. now apply write_packet_wf. Qed.
+
+(* before F18a: a send that takes fewer bytes than offered loses the rest of the frame *)
+Lemma send_once_short : forall t ts buf, 0 <= t < zlen buf ->
+  send_once (t :: ts) buf = firstn (Z.to_nat t) buf /\ zlen (send_once (t :: ts) buf) < zlen buf.
+Proof.
+  intros t ts buf H. cbn [send_once]. destruct (zlen buf <=? t) eqn:E; [lia|].
+  split; [reflexivity|]. unfold zlen in *. rewrite firstn_length. lia.
+Qed.
+
+(* ================================================================ data assigned after construction (F18b) *)
+Lemma refresh_wf : forall p, wf_attrs p -> wf_cpx (refresh p).
+Proof. intros p (Hs & Hd & Hf & Hv & Hm). unfold wf_cpx, refresh. cbn. auto 10. Qed.
+
+Lemma frame_refresh : forall p, frame (refresh p) = frame p.
+Proof. reflexivity. Qed.
+
+Lemma read_packet_frame_attrs : forall p b s, wf_attrs p -> concat s = frame p ++ b ->
+  exists s', read_packet s = (Ok (refresh p), s') /\ concat s' = b.
+Proof.
+  intros p b s Hwf Hc. rewrite <- frame_refresh in Hc.
+  exact (read_packet_frame (refresh p) b s (refresh_wf p Hwf) Hc).
+Qed.
+
+Lemma write_packet_attrs : forall takes p, wf_attrs p -> tx_packet takes p = Ok (frame p).
+Proof.
+  intros takes p Hwf. rewrite <- frame_refresh. rewrite tx_packet_write.
+  pose proof (write_packet_wf _ (refresh_wf p Hwf)) as H. exact H.
+Qed.
+
+(* ================================================================ the CPX facade *)
+Fixpoint c_proj (evs : list cev) : list sev :=
+  match evs with
+  | [] => []
+  | CPump :: r => Pump :: c_proj r
+  | CRecv f :: r => SRecv f :: c_proj r
+  | _ :: r => c_proj r
+  end.
+Definition c_simple (e : cev) : bool := match e with CTransact _ _ | CClose => false | _ => true end.
+Definition recv_obs (os : list cobs) : list obs :=
+  flat_map (fun o => match o with ORecv f r => [(f, r)] | _ => [] end) os.
+Definition sent_obs (os : list cobs) : list (res (list Z)) :=
+  flat_map (fun o => match o with OSent b => [b] | _ => [] end) os.
+Definition sends (evs : list cev) : list cpx :=
+  flat_map (fun e => match e with CSend p => [p] | _ => [] end) evs.
+
+Lemma r_step_arrive_obs : forall st r, snd (r_step st (Arrive r)) = [].
+Proof. intros st [p|e]; cbn [r_step]; [destruct (st (c_fn p))|]; reflexivity. Qed.
+
+Lemma recv_obs_app a b : recv_obs (a ++ b) = recv_obs a ++ recv_obs b.
+Proof. apply flat_map_app. Qed.
+Lemma sent_obs_app a b : sent_obs (a ++ b) = sent_obs a ++ sent_obs b.
+Proof. apply flat_map_app. Qed.
+
+Lemma recv_obs_map : forall o : list obs, recv_obs (map (fun x : obs => ORecv (fst x) (snd x)) o) = o.
+Proof. induction o as [|[f r] o IH]; [reflexivity|]. cbn. f_equal. exact IH. Qed.
+Lemma sent_obs_map : forall o : list obs, sent_obs (map (fun x : obs => ORecv (fst x) (snd x)) o) = [].
+Proof. induction o as [|[f r] o IH]; [reflexivity|]. cbn. exact IH. Qed.
+
+(* send / receive / router iterations through the facade = the router on the transport, and every send
+   puts exactly tx_packet on the stream (sending and receiving do not disturb each other) *)
+Lemma c_run_simple : forall takes evs s st, forallb c_simple evs = true ->
+  let '(c', os) := c_run takes (mk_cs s st true) evs in
+  let '(s', st', o) := sys_run s st (c_proj evs) in
+  c' = mk_cs s' st' true /\ recv_obs os = o /\ sent_obs os = map (tx_packet takes) (sends evs).
+Proof.
+  intros takes. induction evs as [|e evs IH]; intros s st Hs.
+  - cbn. auto.
+  - cbn [forallb] in Hs. apply andb_true_iff in Hs as [He Hs].
+    destruct e as [|f|p|p k|]; try discriminate; cbn [c_run c_step c_proj sys_run sends flat_map app map].
+    + unfold c_pump. cbn [cs_open cs_in cs_rt].
+      destruct (read_packet s) as [r s1].
+      pose proof (r_step_arrive_obs st r) as Ho. destruct (r_step st (Arrive r)) as [st1 o1]. cbn [fst snd] in *. subst o1.
+      specialize (IH s1 st1 Hs). destruct (c_run takes (mk_cs s1 st1 true) evs) as [c' os].
+      destruct (sys_run s1 st1 (c_proj evs)) as [[s' st'] o]. cbn [app]. exact IH.
+    + cbn [cs_in cs_rt cs_open]. destruct (r_step st (Recv f)) as [st1 o1].
+      specialize (IH s st1 Hs). destruct (c_run takes (mk_cs s st1 true) evs) as [c' os].
+      destruct (sys_run s st1 (c_proj evs)) as [[s' st'] o]. destruct IH as (-> & <- & E).
+      rewrite recv_obs_app, sent_obs_app, recv_obs_map, sent_obs_map. auto.
+    + cbn [cs_open]. specialize (IH s st Hs). destruct (c_run takes (mk_cs s st true) evs) as [c' os].
+      destruct (sys_run s st (c_proj evs)) as [[s' st'] o]. destruct IH as (-> & <- & E).
+      unfold recv_obs, sent_obs in *. cbn [app flat_map]. rewrite E. auto.
+Qed.
+
+(* makeTransaction: the request goes out whole, and the reply of the same function that is next on the
+   stream — however fragmented — is what the call returns *)
+Lemma c_transact_reply : forall takes p r b s st,
+  wf_cpx p -> wf_cpx r -> c_fn r = c_fn p -> concat s = frame r ++ b ->
+  (st (c_fn p) = None \/ st (c_fn p) = Some []) ->
+  exists c', c_step takes (mk_cs s st true) (CTransact p 1) = (c', [OTrans (Ok (frame p)) (Some r)]) /\
+    concat (cs_in c') = b /\ cs_rt c' (c_fn p) = Some [] /\ cs_open c' = true.
+Proof.
+  intros takes p r b s st Hp Hr Hf Hc Hq.
+  cbn [c_step cs_open]. rewrite (tx_packet_wf takes p Hp). cbn [cs_rt cs_in c_pumps].
+  unfold c_pump. cbn [cs_open cs_in cs_rt].
+  destruct (read_packet_frame r b s Hr Hc) as (s1 & H1 & H2). rewrite H1.
+  cbn [r_step]. rewrite Hf.
+  destruct Hq as [E|E]; rewrite E; unfold upd; rewrite ?Z.eqb_refl; cbn [fst app cs_rt cs_in cs_open];
+    rewrite ?Z.eqb_refl; try rewrite E; cbn [fst app cs_rt cs_in cs_open]; rewrite ?Z.eqb_refl;
+    (eexists; split; [reflexivity|]; cbn [cs_in cs_rt cs_open]; rewrite ?Z.eqb_refl; auto).
+Qed.
+
+(* close(): afterwards the router thread makes no further iteration and sending fails *)
+Lemma c_after_close : forall takes s st p,
+  c_step takes (mk_cs s st false) CPump = (mk_cs s st false, []) /\
+  c_step takes (mk_cs s st false) (CSend p) = (mk_cs s st false, [OSent (Exc AttributeErr)]) /\
+  fst (c_step takes (mk_cs s st true) CClose) = mk_cs s st false.
+Proof. intros. repeat split. Qed.
